@@ -305,6 +305,41 @@ def zero_tolerance_scenarios(rng, k):
     return out
 
 
+def cellfield_tolerance_scenarios(rng, k):
+    """a per-field tolerance addressed to a CELL field by its (un-annotated) name: looser than the fallback with a
+    deviation in between (must pass), or stricter than a loose global one with a deviation in between (must fail)"""
+    import copy
+    out, tries = [], 0
+    while len(out) < k and tries < 80 * k:
+        tries += 1
+        lm0, _mt = cs.gen_logical_mesh(rng)
+        cfs = [f for f in lm0["cf"] if f["dt"] == "f64" and f["v"] and not f["tail"]]
+        if not cfs:
+            continue
+        name = rng.choice(sorted({f["name"] for f in cfs}))
+        sc = {"kind": "mesh", "rtol": None, "atol": None, "flags": cs.gen_flags(rng, mesh=True), "incl": None,
+              "excl": None, "read_as": None, "damage": [None, None]}
+        ref = {"kind": "mesh", "lm": copy.deepcopy(lm0)}
+        res = {"kind": "mesh", "lm": copy.deepcopy(lm0), "topo_same": True, "moved": None}
+        f = rng.choice([g for g in res["lm"]["cf"] if g["name"] == name and g["dt"] == "f64" and g["v"]])
+        i = rng.randrange(len(f["v"]))
+        a = float(f["v"][i])
+        if a == 0.0:
+            continue
+        mode = rng.choice(["loose-field", "strict-field"])
+        if mode == "loose-field":
+            sc["rtol"] = rng.choice([[f"{name}:1e-3"], ["1e-9", f"{name}:1e-3"]])
+            f["v"][i] = a * (1.0 + 1e-4)
+        else:
+            sc["rtol"] = ["1e-2", f"{name}:1e-9"]
+            f["v"][i] = a * (1.0 + 1e-5)
+        cs._store(rng, res, relabel_p=0.0)
+        cs._store(rng, ref, relabel_p=0.0)
+        sc["res"], sc["ref"] = res, ref
+        out.append((sc, ["mesh", "cellfield-tol-" + mode]))
+    return out
+
+
 def run(ctx):
     ctx.rule = ("cases = decision-table entries, tolerance-argument lists x queried name, and file-mode scenarios "
                 "(logical result/reference data: CSV tables, unstructured meshes written as .vtu, .pvd sequences; edits: "
@@ -330,6 +365,7 @@ def run(ctx):
     wd = cs.Workdir()
     try:
         evaluate(ctx, zero_tolerance_scenarios(ctx.rng, ctx.scale(40, 600)), wd)
+        evaluate(ctx, cellfield_tolerance_scenarios(ctx.rng, ctx.scale(40, 600)), wd)
         n = ctx.scale(1400, 60000)
         CH = 400
         done = 0
